@@ -319,6 +319,32 @@ def cellAssemble (pieces : List Piece) : Str :=
 def cellFormat (pieces : List Piece) (v : Version) : Except Err (List Str × Nat) :=
   wrapStringForMcnp (cellAssemble pieces) v true
 
+/-! ## montepy/data_inputs/cell_modifier.py, importance.py: per-cell data written to the data block -/
+
+/-- `str.rstrip(" ")` -/
+def rstripBlanks (s : Str) : Str := (s.reverse.dropWhile (· == ' ')).reverse
+
+/-- `s[s.rfind("\n") + 1:]`: what stands behind the last line feed (all of `s` when there is none) -/
+def afterLastNl (s : Str) : Str := (s.reverse.takeWhile (· != '\n')).reverse
+
+/-- the test of cell_modifier.py:_drop_final_continuation_mark: the text ends in the continuation mark (white space
+    aside) and the mark is not comment text -/
+def endsInMark (text : Str) : Bool :=
+  (pyRstrip text).getLast? == some '&' && !(afterLastNl (pyRstrip text)).contains '$'
+
+/-- cell_modifier.py:_drop_final_continuation_mark — an input of the data block must not end in the continuation
+    mark (the values come from the cells with the padding they had there) -/
+def dropFinalContinuationMark (text : Str) : Str :=
+  if endsInMark text then rstripBlanks (pyRstrip text).dropLast else text
+
+/-- importance.py:Importance._format_tree, data-block branch: `cards` are the texts `tree.format()` of the groups of
+    particles that are printed together, in print order; every one of them loses a final continuation mark -/
+def importanceDataText (cards : List Str) : Str := joinNl (cards.map dropFinalContinuationMark)
+
+/-- cell_modifier.py:CellModifierInput.format_for_mcnp_input, data-block branch, from the text `_format_tree` returns -/
+def modifierDataFormat (text : Str) (v : Version) : Except Err (List Str × Nat) :=
+  wrapStringForMcnp (dropFinalContinuationMark text) v true
+
 /-! ## montepy/input_parser/mcnp_input.py -/
 
 /-- Python slice `s[0:k]` for an `int` k that may be negative -/
